@@ -1,6 +1,6 @@
 SPECIFICATION SpecD
 CONSTANTS N = 3
-  Walker = "length"
+  Walkers = {"resolve", "length", "xref", "pages", "outline", "nametree", "filters"}
   MaxDepth = 4
   MaxChain = 3
   StackCap = 12
